@@ -1,6 +1,6 @@
 CONSTANTS
   Settings <- QuickSettings
-  Family = "ABCD"
+  Family = "ABCDE"
 INIT Init
 NEXT Next
 INVARIANTS
